@@ -59,6 +59,8 @@ func main() {
 		contractMode(r, sk)
 	case "requests":
 		requestsMode(r, sk)
+	case "importer":
+		importerMode(r, sk)
 	default:
 		fmt.Fprintln(os.Stderr, "unknown mode", r.Mode)
 		os.Exit(2)
